@@ -10,6 +10,11 @@ import types
 import uuid as _uuid
 
 SCRATCH_BASE = "/dev/shm" if os.path.isdir("/dev/shm") else "/var/tmp"
+# The tree under test.  Always /repo for the registered commands; VERIF_REPO lets the
+# mutation tooling point a check at a scratch worktree (tools/run_mutant_wt.sh) without
+# touching /repo.
+REPO_ROOT = os.path.realpath(os.environ.get("VERIF_REPO") or "/repo")
+SP_DIR = REPO_ROOT + "/spatialpandas/"
 
 
 def pin_process():
@@ -19,8 +24,8 @@ def pin_process():
     pa.set_io_thread_count(1)
     import spatialpandas  # noqa: F401
     p = os.path.realpath(spatialpandas.__file__)
-    if not p.startswith("/repo/"):
-        raise RuntimeError(f"spatialpandas is imported from {p}, not from /repo")
+    if not p.startswith(REPO_ROOT + "/"):
+        raise RuntimeError(f"spatialpandas is imported from {p}, not from {REPO_ROOT}")
     from .simfs import register
     register()
 
